@@ -65,6 +65,14 @@ def boundary_corpus() -> list[dict]:
     c.append(sig_case([("x", "a b"), ("y", "b=a+2")], [(2, 4), (5,)]))
     c.append(sig_case([("x", "a")], [(2,)], provider={"kind": "free", "scope": {"m": 7}, "fresh": True}, ret="m=a*2", retval=(7,)))
     c.append(sig_case([("x", "a")], [(2,)], provider={"kind": "free", "scope": {"m": 4}, "fresh": True}, ret="m=a*2", retval=(4,)))
+    # a size of 0 is a size like any other (cached values must not be tested for truthiness)
+    c.append(sig_case([("x", "*g c"), ("y", "*g c")], [(0, 3), (5, 3)]))
+    c.append(sig_case([("x", "*g c"), ("y", "*g c")], [(4, 0, 3), (4, 7, 3)]))
+    c.append(sig_case([("x", "c"), ("y", "a"), ("z", "c=a+1")], [(0,), (4,), (5,)]))
+    c.append(sig_case([("x", "c"), ("y", "c=3")], [(0,), (3,)]))
+    c.append(sig_case([("x", "a b"), ("y", "a*b")], [(0, 3), (0,)]))
+    c.append(sig_case([("x", "a")], [(0,)], provider={"kind": "free", "scope": {"a": 0}, "fresh": True}))
+    c.append(sig_case([("x", "a")], [(3,)], provider={"kind": "free", "scope": {"a": 0}, "fresh": True}))
     # provider sizes belong to the assignment; conflict with a literal
     c.append(sig_case([("x", "n c=3")], [(2, 3)], provider={"kind": "free", "scope": {"c": 4}, "fresh": True}))
     c.append(sig_case([("x", "n 3")], [(2, 3)], provider={"kind": "free", "scope": {"n": 5}, "fresh": True}))
